@@ -371,6 +371,17 @@ def variants(schema, ci, bs, rng, budget, thorough):
             r = mismatching_record(rng, f)
             at = rng.choice(cutpoints)
             out.append(("group-spliced" if wiregen.read_varint(r, 0)[0] & 7 == 3 else "mismatch-spliced", bs[:at] + r + bs[at:]))
+    # --- a packed chunk of a repeated varint-kind field with an element of more than 10 bytes (the limit every other varint has);
+    #     the 10-byte neighbour (valid) goes with it
+    pk = [f for f in c.fields if f.card == "repeated" and WT_OF.get(f.proto_type) == 0]
+    for f in (pk if thorough else pk[:3]):
+        at = rng.choice(cutpoints)
+        for extra, label in ((rng.choice([1, 2, 7]), "packed-element-overlong"), (0, "valid")):
+            pad = rng.choice([0x80, 0xFF])
+            el = bytes([pad] * (9 + extra)) + bytes([rng.choice([0x00, 0x01])])
+            good = enc_varint(rng.choice([0, 1, 7, 300]))
+            body = rng.choice([el, good + el, el + good])
+            out.append((label, bs[:at] + enc_varint((f.number << 3) | 2) + enc_varint(len(body)) + body + bs[at:]))
     for _ in range(2 if not thorough else 5):
         num = rng.choice([f.number for f in c.fields] + [3, 9, 4000]) if c.fields else 3
         at = rng.choice(cutpoints)
